@@ -1,5 +1,5 @@
 ------------------------------- MODULE Trace_CoinSet -------------------------------
-EXTENDS CoinSet, TraceBase
+EXTENDS CoinSet, TraceBase, LibNat
 V(clause, exp, got) == <<clause, exp, got>>
 OK == <<>>
 
@@ -45,6 +45,23 @@ PostOK(e, s) ==
 VerdictCS(p, e, s) ==
   IF "panic" \in DOMAIN e THEN V("panic", e.op, e.panic)
   ELSE IF e.op = "Select" THEN SelectVerdict(e)
+  ELSE IF e.op = "SelectBig" THEN
+         \* coins whose value-age exceeds 2^53 (values and confirmations up to 2^27): the ranking key is the exact product,
+         \* compared as a limb natural (TLC integers have 32 bits).  Only successful selections are judged.
+         LET K(c) == IF e.selector = "MaxValueAge" THEN NMul(NFromSmall(c.value), NFromSmall(c.confs)) ELSE NFromSmall(c.value)
+             n == Len(e.coins)
+             k == Len(e.sel)
+             sc == [j \in 1..k |-> e.coins[e.sel[j]]]
+         IN IF ~e.ok THEN OK
+            ELSE IF \E j \in 1..k : e.sel[j] \notin 1..n THEN V("selection-not-from-offered-coins", n, e.sel)
+            ELSE IF Cardinality({e.sel[j] : j \in 1..k}) # k THEN V("selection-repeats-a-coin", "distinct", e.sel)
+            ELSE IF k > e.maxinputs THEN V("selection-exceeds-max-inputs", e.maxinputs, e.sel)
+            ELSE IF ~Satisfies(e.target, e.minchange, TotalValue(sc)) THEN V("selection-total", e.target, TotalValue(sc))
+            ELSE IF \E j \in 1..(k - 1) : Satisfies(e.target, e.minchange, TotalValue(SubSeq(sc, 1, j))) THEN V("descending-prefix-not-shortest", "no shorter prefix qualifies", e.sel)
+            ELSE IF \E j \in 1..(k - 1) : NCmp(K(sc[j]), K(sc[j + 1])) < 0 THEN V("descending-order-of-exact-keys", "descending", e.sel)
+            ELSE IF \E c \in 1..n : c \notin {e.sel[j] : j \in 1..k} /\ NCmp(K(e.coins[c]), K(sc[k])) > 0
+              THEN V("descending-order-of-exact-keys", "nothing left out ranks above the last selected coin", e.sel)
+            ELSE OK
   ELSE IF e.op = "SimpleCoin" THEN
          \* coin k is output k of the transaction: its hash, index, value, script; confirmations as given; value-age = product
          LET n == Len(e.values)
